@@ -142,6 +142,22 @@ func errFormats() (string, error) {
 
 	var b strings.Builder
 	b.WriteString("From Coq Require Import String List NArith Bool.\nImport ListNotations.\nLocal Open Scope string_scope.\n\n")
+	// error codes: the constants of type Code that are named Err..., have a message or are raised somewhere; other constants
+	// of that type (bounds of a range of codes and the like) are not diagnostics and are listed apart
+	raised := map[string]bool{}
+	for _, c := range calls {
+		raised[c.name] = true
+	}
+	var codeNames, otherNames []string
+	for _, n := range order {
+		if _, hasFormat := formats[n]; strings.HasPrefix(n, "Err") || hasFormat || raised[n] {
+			codeNames = append(codeNames, n)
+		} else {
+			otherNames = append(otherNames, n)
+		}
+	}
+	order = codeNames
+	b.WriteString("(* errs/code.go: constants of type Code that are not error codes (name) *)\nDefinition other_code_constants : list string := " + qlist(otherNames) + ".\n\n")
 	b.WriteString("(* errs/code.go: Code constants (name, value) *)\nDefinition err_codes : list (string * N) := [\n")
 	for i, n := range order {
 		sep := ";"
